@@ -19,6 +19,7 @@ type job struct {
 	maxResume          int
 	resumeAfterTimeout bool
 	memcapMB           int // resource-bound monitor in the worker (exit status 7)
+	cpuBudgetS         int // processor-time bound on one journaled case, enforced by the controller (0: none)
 	stage              int // jobs of stage n+1 start after all jobs of stage n ended
 }
 
@@ -109,10 +110,10 @@ func init() {
 		assumptions: commonAssumptions,
 		jobs: func(tier string) []*job {
 			return []*job{
-				{variant: "plain", mode: "main", shards: 12, maxResume: 3},
-				{variant: "plain", mode: "emit", shards: 4, maxResume: 0},
+				{variant: "plain", mode: "main", shards: 12, maxResume: 3, cpuBudgetS: 300},
+				{variant: "plain", mode: "emit", shards: 4, maxResume: 0, cpuBudgetS: 300},
 				{variant: "noasm", mode: "consume", shards: 4, maxResume: 3, stage: 1},
-				{variant: "race", mode: "main", shards: 4, maxResume: 0, gomaxprocs: 4},
+				{variant: "race", mode: "main", shards: 4, maxResume: 0, gomaxprocs: 4, cpuBudgetS: 1500},
 			}
 		},
 		require: func(tier string, c, m map[string]int64, s map[string]map[string]struct{}) []string {
@@ -132,7 +133,7 @@ func init() {
 		assumptions: append([]string{"the harness's own container parser/re-framer is checked at start: re-framed unmutated blobs must deserialize"}, commonAssumptions...),
 		jobs: func(tier string) []*job {
 			return []*job{
-				{variant: "plain", mode: "main", shards: 16, maxResume: 40, memcapMB: 1024},
+				{variant: "plain", mode: "main", shards: 16, maxResume: 40, memcapMB: 1024, cpuBudgetS: 60},
 			}
 		},
 		require: func(tier string, c, m map[string]int64, s map[string]map[string]struct{}) []string {
@@ -206,7 +207,7 @@ func init() {
 		assumptions: append([]string{"'bounded time' is decided as absence of deadlock plus termination of every call within the watchdog; slow-but-running calls are reported as inconclusive, never as violations"}, commonAssumptions...),
 		jobs: func(tier string) []*job {
 			return []*job{
-				{variant: "plain", mode: "main", shards: 14, maxResume: 8},
+				{variant: "plain", mode: "main", shards: 14, maxResume: 8, cpuBudgetS: 300},
 				{variant: "plain", mode: "deep", shards: 2, maxResume: 12, gogc: "100", quickTimeout: 20 * time.Minute, thoroughTimeout: 90 * time.Minute},
 				{variant: "race", mode: "main", shards: 2, maxResume: 0, gomaxprocs: 8, weight: 2, quickTimeout: 8 * time.Minute, stage: 1},
 			}
